@@ -190,3 +190,46 @@ package poseidon
 //@   props C10
 //@ lemma bn_chunk56_injective(a0, a1, a2, a3, a4, b0, b1, b2, b3, b4) = implies(0 <= a0 && a0 < pow2(56) && 0 <= a1 && a1 < pow2(56) && 0 <= a2 && a2 < pow2(56) && 0 <= a3 && a3 < pow2(56) && 0 <= a4 && a4 < pow2(30) && 0 <= b0 && b0 < pow2(56) && 0 <= b1 && b1 < pow2(56) && 0 <= b2 && b2 < pow2(56) && 0 <= b3 && b3 < pow2(56) && 0 <= b4 && b4 < pow2(30) && a0 + a1 * pow2(56) + a2 * pow2(112) + a3 * pow2(168) + a4 * pow2(224) == b0 + b1 * pow2(56) + b2 * pow2(112) + b3 * pow2(168) + b4 * pow2(224), a0 == b0 && a1 == b1 && a2 == b2 && a3 == b3 && a4 == b4)
 //@   props C10
+
+// ================================================================== Goldilocks Poseidon sponge (plonky2 hash_n_to_m_no_pad)
+// rate 8, overwrite mode, no padding; inputs are reduced first.
+//@ opaque def pos_pk(s, k) = sp_poseidon(s)[k]
+//@ def pos_pt(s) = mktuple(12, k, pos_pk(s, k))
+//@ def pos_over(inp, st, i) = mktuple(12, j, ite(j < 8 && i + j < len(inp), inp[ite(j < 8, i + j, 0)] % P, st[j]))
+//@ recdef pos_sponge(inp []int, st [12]int, i int) [12]int = ite(i >= len(inp), st, pos_sponge(inp, pos_pt(pos_over(inp, st, i)), i + 8))
+//@ recdef pos_iter(st [12]int, m int) [12]int = ite(m <= 0, st, pos_pt(pos_iter(st, m - 1)))
+//@ def pos_zero() = mktuple(12, k, 0)
+//@ def pos_absorbed(inp) = pos_sponge(inp, pos_zero(), 0)
+//@ def pos_out(inp, k) = pos_iter(pos_absorbed(inp), k / 8)[k % 8]
+
+//@ func (c *GoldilocksChip) Poseidon(input GoldilocksState) (res GoldilocksState)
+//@   props C09
+//@   circuit
+//@   reveal pos_pk
+//@   ensures res == pos_pt(input)
+
+//@ func (c *GoldilocksChip) HashNToMNoPad(input []gl.Variable, nbOutputs int) (res []gl.Variable)
+//@   props C05 C09
+//@   circuit
+//@   requires chipok(c.Gl) && canonSeq(input) && 1 <= nbOutputs
+//@   ensures len(res) == nbOutputs && canonSeq(res)
+//@   ensures forall(k, 0, nbOutputs, res[k].Limb == pos_out(input, k))
+//@   loop 1 invariant 0 <= i && i % 8 == 0 && i <= len(input) + 7 && canonState(state) && pos_sponge(input, state, i) == pos_absorbed(input)
+//@   loop 3 invariant 0 <= len(outputs) && len(outputs) % 8 == 0 && len(outputs) < nbOutputs && canonState(state) && canonSeq(outputs) &&
+//@        state == pos_iter(pos_absorbed(input), len(outputs) / 8) &&
+//@        forall(k, 0, len(outputs), outputs[k].Limb == pos_out(input, k))
+
+//@ func (c *GoldilocksChip) HashNoPad(input []gl.Variable) (res GoldilocksHashOut)
+//@   props C05 C09
+//@   circuit
+//@   requires chipok(c.Gl)
+//@   honest forall(k, 0, len(input), input[k].Limb < pow2(144) * P)
+//@   ghost inputVars []gl.Variable
+//@   ensures len(inputVars) == len(input) && forall(k, 0, len(input), canon(inputVars[k]) && inputVars[k].Limb == input[k].Limb % P)
+//@   ensures forall(k, 0, 4, canon(res[k]) && res[k].Limb == pos_out(inputVars, k))
+//@   loop 0 invariant 0 <= i && i <= len(input) && len(inputVars) == i && forall(k, 0, i, canon(inputVars[k]) && inputVars[k].Limb == input[k].Limb % P)
+
+//@ func (c *GoldilocksChip) ToVec(hash GoldilocksHashOut) (res []gl.Variable)
+//@   props C09
+//@   circuit
+//@   ensures len(res) == 4 && forall(k, 0, 4, res[k] == hash[k])
